@@ -82,6 +82,24 @@ CHECKS['C10'] = dict(
     note=TB + "user variable names pos/shift are resolved through MIR debug info (fail closed if renamed).",
     design_ref='5/C10')
 
+CHECKS['C05'] = dict(
+    category='proof',
+    technique='abstract interpretation of monomorphic MIR (symbolic regions, exact linear-integer store with Fourier-Motzkin entailment, Houdini loop invariants, inlining of unsafe callees) over 2 (quick) / 10 (thorough) target configurations, release semantics',
+    text="Decides the property for the crate's code as compiled: every public entry point is interpreted with arbitrary "
+         "arguments of its types (slices of unconstrained address and length; finders satisfying only their type "
+         "invariants, so needles unrelated to the construction needle are included; public unsafe fns under their "
+         "documented pointer contracts) and every raw read / aligned load / pointer distance / union read / fn-pointer "
+         "call must be entailed in bounds by the linear store. Because base address and length are symbols the result "
+         "covers every alignment, every length and 'the next page is unmapped'; because NEON, simd128, no-SSE2, 32-bit "
+         "and big-endian builds are analysed like the host, backends the tests never compile are covered. Analysed "
+         "under release semantics (debug assertions off, wrapping arithmetic) so that no debug_assert! is what keeps a "
+         "read in bounds. Type invariants assumed for arguments are re-proved at every construction site and at exit "
+         "of every &mut method (TYINV). Fails closed on any construct the engine does not model.",
+    note=TB + "the interpreter (lin.py Fourier-Motzkin, loops.py Houdini, ~60 function models in models.py); vendor load "
+         "intrinsics contribute size and alignment only; allocator/fmt internals opaque; out-of-allocation pointer "
+         "arithmetic without a read is reported as ARITH notes only.",
+    design_ref='5/C05')
+
 NOT_YET = "check not built yet (build in progress, see DESIGN.md section 8 build order)"
 NA = {}
 
